@@ -219,6 +219,8 @@ def work_global(mu):
         killed[prop] = viol[0].rule
       elif inc or check.errors:
         inconc[prop] = (check.errors + [o.rule for o in inc])[0][:120]
+    from fjsa.flow import FuncFlow
+    FuncFlow._cache.clear()
     r = dict(mu)
     r.pop('src')
     r.update(status='killed' if killed else ('inconclusive' if inconc else 'survived'), killed=killed, inconclusive=inconc)
@@ -241,7 +243,7 @@ def main_global(out, jobs):
     mu['owners'] = owners.get(f"{mu['file']}:{mu['func']}", [])
   print('mutants', len(mus), 'functions', len(fns), flush=True)
   res = []
-  with mp.Pool(jobs) as pool:
+  with mp.Pool(jobs, maxtasksperchild=24) as pool:
     for i, r in enumerate(pool.imap_unordered(work_global, mus, chunksize=2)):
       res.append(r)
       if i % 200 == 0:
